@@ -198,14 +198,17 @@ def check(E: Engine, rep: Report, rule: str, class_quals: list[str], functions: 
                 # guard may also sit at the definition site of the local
                 dnf = [a + b for a in dnf for b in ab.enclosing_conditions(n)][:64]
             guarded = True
+            # (when the Optional value reaches its use through a local, e.g. `end = d if x.tf is None else x.tf`, the guard
+            #  at the definition site speaks about the attribute itself, not about the local's merged value)
+            own_roots = ab.av(n).roots if use is not n else path.roots
             for conj in dnf:
                 g = False
                 for lit in conj:
                     if lit.atom is not None:
                         a = lit.atom
-                        if a.rel == "IsNot" and "const:None" in a.rhs.roots and a.lhs.roots == path.roots:
+                        if a.rel == "IsNot" and "const:None" in a.rhs.roots and a.lhs.roots in (path.roots, own_roots):
                             g = True
-                        if a.rel == "IsNot" and "const:None" in a.lhs.roots and a.rhs.roots == path.roots:
+                        if a.rel == "IsNot" and "const:None" in a.lhs.roots and a.rhs.roots in (path.roots, own_roots):
                             g = True
                         # `"<attr>" not in self._optional_parameters`: mandatory for this device class, and mandatory
                         # parameters are rejected when None at construction (same idiom as at guarded call sites)
